@@ -158,7 +158,7 @@ class Engine:
 
     # ---- factories
 
-    def make_factory(self, fid: int, is_async: bool, annotate: Any) -> Any:
+    def make_factory(self, fid: int, is_async: bool, annotate: Any, async_kind: str = "def") -> Any:
         """sync factories count their calls; async factories are plain coroutine functions that count when
         their body starts to run (so a coroutine that is created and closed by the sync API counts 0)"""
         eng = self
@@ -175,6 +175,15 @@ class Engine:
                 return produce()
 
             factory: Any = afactory
+            if async_kind == "lambda":  # a sync callable that returns a coroutine is an asynchronous factory too
+                factory = lambda: afactory()  # noqa: E731
+            elif async_kind == "object":
+
+                class AsyncCallable:
+                    async def __call__(self) -> Any:
+                        return await afactory()
+
+                factory = AsyncCallable()
         else:
 
             def sfactory():  # type: ignore[no-untyped-def]
@@ -241,6 +250,11 @@ class Engine:
     def check_outcome(self, what: str, expected: Any, observed: Any, cmd: Any) -> bool:
         kind, val = expected
         okind, oval = observed
+        if kind == "exc" and what.startswith("add") and val & {"ValueError", "TypeError"}:
+            # the statement names ResourceConflict for conflicts only; for invalid input it says "raises for any reason":
+            # either of the two validation exception classes is accepted (e.g. get_type_hints() of a callable object
+            # without type information raises TypeError, not ValueError)
+            val = set(val) | {"ValueError", "TypeError"}
         if kind == "exc":
             if okind != "exc":
                 self.bad(f"{what}-should-fail", f"{cmd}: expected one of {sorted(val)} but the call returned {self.tagname(oval) if oval is not None else None}")
@@ -487,7 +501,9 @@ class Engine:
             kwargs["types"] = POOL[types[0]]
         else:
             kwargs["types"] = [POOL[t] for t in types]
-        factory = self.make_factory(fid, cmd["is_async"], annotate)
+        factory = self.make_factory(fid, cmd["is_async"], annotate, cmd.get("async_kind", "def") if annotate is None else "def")
+        if cmd["is_async"] and annotate is None:
+            self.inc("async_factory_kind_" + cmd.get("async_kind", "def"))
         self.factories[fid] = factory
 
         async def call() -> None:
@@ -728,6 +744,7 @@ class Engine:
             types = rng.sample(range(len(POOL)), ntypes)
             cmd = {"op": "add_factory", "cid": cid, "fid": self.fresh(), "name": name, "types": types, "types_single": rng.random() < 0.5,
                    "annotated": rng.random() < 0.3, "desc": rng.choice([None, "fd"]), "is_async": rng.random() < 0.5,
+                   "async_kind": rng.choice(["def", "def", "lambda", "object"]),
                    "via": rng.choice(["method", "shortcut"])}
             if rng.random() < p["p_invalid"]:
                 cmd["types"] = rng.choice(["missing", "none_in_types"])
